@@ -356,6 +356,16 @@ def _publish(repo, rep):
                           % n.lineno, construct="early-flag:%s" % (
                               fn.name if fn else "?"),
                           where="%s:%d" % (m.relpath, n.lineno))
+    # a reader never proceeds past cook_check while the flag is down
+    from .c16 import cook_check_never_returns_uncooked
+    okr, detail = cook_check_never_returns_uncooked(repo)
+    cc = repo.func("chameleon.template.BaseTemplateFile.cook_check")
+    rep.check(okr, "R14.4", cc.qualname, "cook_check lets a caller through "
+              "only if it saw the compiled flag up or compiled itself on "
+              "that path -- also when the file is unchanged (a second "
+              "thread arriving while the first compiles must not render "
+              "with missing entry points)", construct="no-return-uncooked",
+              where=L.where(cc), detail=detail)
     # a published entry point is never taken away again: removals come
     # after the publication and spare the names just published (another
     # thread may already be rendering through them)
